@@ -11,7 +11,7 @@ import (
 
 func init() {
 	register(&Rule{
-		Name: "no-bare-send", Props: []string{"C10", "C12", "C17"}, Engine: "AST", Floor: 9,
+		Name: "no-bare-send", Props: []string{"C10", "C12", "C17"}, Engine: "AST", Floor: 6,
 		Doc: "every channel send in the library is an arm of a select that also has a stop-channel receive or a default: once the receiving loop has gone, a bare send blocks its goroutine (ServeConn, a caller, a timer) for ever",
 		Run: ruleNoBareSend,
 	})
